@@ -579,6 +579,21 @@ def r168(db, ctx):
         ctx.ok('R16.8', fs['test'], 'test / set / unset address the same cell; count follows the flag', [f'element {sorted(ref[0])}', f'bit {sorted(ref[1]) or "-"}'])
 
 
+def r169(db, ctx):
+    """The sampler never sees a plain sequence: motif windows are read through `StripedSequence: Index<usize>`, the background through
+    `count_symbols`, the scores through `score_into`; all three compute the number of sequence rows as data.rows() - wrap.  That
+    bookkeeping (configure_wrap: the matrix grows by m - wrap, then wrap = m) and the index formulas are necessary for the state to be
+    the state of the alignment (seed C16-5: re-configuring for a wider motif left surplus rows)."""
+    from . import C04, C01
+
+    def both(db_, ctx_):
+        C04.r45(db_, ctx_)
+        C01.r14(db_, ctx_)
+    common.shared_rule(db, ctx, both, 'R16.9', 'the striped layout the sampler reads through: configure_wrap keeps data.rows() - wrap equal to the number of '
+                       'sequence rows and copies the look-ahead rows from the right cells; seq[i] = data[i % R][i / R], count_symbols visits the cells '
+                       'below len once (shared with R4.5 / R1.4)', ['R4.5', 'R1.4'])
+
+
 def run(db, ctx):
     r161(db, ctx)
     r162(db, ctx)
@@ -588,3 +603,4 @@ def run(db, ctx):
     r166(db, ctx)
     r167(db, ctx)
     r168(db, ctx)
+    r169(db, ctx)
